@@ -100,7 +100,9 @@ HasLit(t) ==
       [] t.k = "call" -> (t.args = <<>> /\ t.f \in BuiltinNames \cup TypeNames \cup {"coalesce"}) \/ AnyLit(t.args, 1)
       [] t.k = "mcall" -> HasLit(t.r) \/ AnyLit(t.args, 1)
       [] OTHER -> TRUE                                   \* maps, f-strings, match: not compared
-SameOperand(a, b) == IF a.t = "ident" /\ b.t = "ident" THEN a.n = b.n
+SameOperand(a, b) == IF a.t = "unknown" \/ b.t = "unknown" THEN TRUE         \* a constant the model cannot compute
+                     ELSE IF a.t = "ident" /\ b.t = "ident" THEN a.n = b.n
+                     ELSE IF a.t = "err" /\ b.t = "err" THEN a.c = b.c
                      ELSE IF a.t = "code" /\ b.t = "code" THEN SameCode(a.c, b.c)
                      ELSE a = b
 SameCode(x, y) == Len(x) = Len(y) /\ \A k \in 1..Len(x) :
@@ -109,7 +111,12 @@ SameCode(x, y) == Len(x) = Len(y) /\ \A k \in 1..Len(x) :
                      /\ (x[k].op \in {"JMP", "JMPC"} => x[k].d = y[k].d)
                      /\ (x[k].op = "JMPC" => x[k].when = y[k].when)
                      /\ (x[k].op \in {"CALL", "MKLIST", "MKDICT", "FMT"} => x[k].n = y[k].n)
-CompileDrift(r, vm) == ~HasLit(r.tree) /\ ~SameCode(C(r.tree), vm.blocks[1])
+RECURSIVE HasUnk(_)
+HasUnk(code) == \E k \in 1..Len(code) : code[k].op = "PUSH" /\ (code[k].v.t = "unknown" \/ (code[k].v.t = "code" /\ HasUnk(code[k].v.c)))
+(* a constant the model cannot compute leaves open whether the real compiler folded at all: such programs are not compared *)
+CanCompare(r) == ~HasLit(r.tree) \/ ~HasUnk(BC(F(r.tree)))
+CompileDrift(r, vm) == IF HasLit(r.tree) THEN CanCompare(r) /\ ~SameCode(BC(F(r.tree)), vm.blocks[1])      \* the folding compiler
+                       ELSE ~SameCode(C(r.tree), vm.blocks[1])
 
 (* 3. all valuations of the real bytecode *)
 Pool == <<VTrue, VFalse, VInt(BFromInt(1)), VInt(BFromInt(0)), VStr(<<>>), VNull, [t |-> "unbound"]>>
@@ -149,8 +156,8 @@ Step == /\ l <= Len(Rec)
            IN /\ nbad' = nbad + Cardinality(badS) + Cardinality(badE)
               /\ nsteps' = nsteps + Cardinality(steps)
               /\ ndrift' = ndrift + Cardinality(drift) + Cardinality(driftE) + (IF cdrift THEN 1 ELSE 0)
-              /\ ncomp' = ncomp + (IF has /\ ~HasLit(r.tree) THEN 1 ELSE 0)
-              /\ (cdrift => PrintT(<<"DRIFT", r.id, ToJson([instr |-> "compile", model |-> C(r.tree)])>>))
+              /\ ncomp' = ncomp + (IF has /\ "blocks" \in DOMAIN vm /\ CanCompare(r) THEN 1 ELSE 0)
+              /\ (cdrift => PrintT(<<"DRIFT", r.id, ToJson([instr |-> "compile", model |-> BC(F(r.tree))])>>))
               /\ ncand' = ncand + Cardinality(cands)
               /\ nvals' = nvals + (IF has THEN Len(Pool) ^ Cardinality(names) ELSE 0)
               /\ \A i \in badS : PrintT(<<"VERDICT", r.id, StepBad(ev, i), ToJson([frame |-> ev[i].f, pc |-> ev[i].pc, depth |-> EnterOf(ev, ev[i].f).g])>>)
